@@ -256,6 +256,10 @@ func (g *Gen) HistoryBulk(size int) []E {
 	if rewriteX {
 		opk = []int{2, 3, 7, 2, 3, 7, 0, 8}[g.r.Intn(8)]
 	}
+	// what FindAll returns for the query right before the bulk operation (C03: exactly those documents)
+	if size <= 350 && opk != 1 {
+		evs = append(evs, E{"op": "FindAll", "c": c, "q": q})
+	}
 	switch opk {
 	case 0:
 		evs = append(evs, E{"op": "Delete", "c": c, "q": q})
@@ -487,6 +491,12 @@ func (g *Gen) HistoryAlgebra() []E {
 			find([]interface{}{"and", []interface{}{"sugar", "notexists", B(f), none}, []interface{}{"un", "lt", B(f), g.operand(f)}})
 			find([]interface{}{"and", []interface{}{"un", "gte", B(f), []interface{}{"lit", ANil()}}, ex})
 			find([]interface{}{"sugar", "isnilornotexists", B(f), none})
+			// an upper bound next to IsNil, in both orders, and its De Morgan image
+			ub := []interface{}{"un", g.pick([]string{"lt", "lte"}), B(f), []interface{}{"lit", g.fieldValue(f)}}
+			isnil := []interface{}{"sugar", "isnil", B(f), none}
+			find([]interface{}{"and", ub, isnil})
+			find([]interface{}{"and", isnil, ub})
+			find(not([]interface{}{"or", not(ub), []interface{}{"sugar", "neq", B(f), []interface{}{"lit", ANil()}}}))
 		case 0:
 			find(not([]interface{}{"and", a, b}))
 			find([]interface{}{"or", not(a), not(b)})
